@@ -453,8 +453,10 @@ class SymExec:
         if g.qual in cache:
             return cache[g.qual]
         cache[g.qual] = None
-        if any(isinstance(n, (ast.Yield, ast.YieldFrom, ast.For, ast.While)) for n in ast.walk(g.node)):
+        if any(isinstance(n, (ast.Yield, ast.YieldFrom, ast.While)) for n in ast.walk(g.node)):
             return None
+        if not self.bind_loops and any(isinstance(n, ast.For) for n in ast.walk(g.node)):
+            return None         # (with bound loops an accumulating loop has a closed value like a sum())
         sub = SymExec(self.ctx, g, self.depth - 1, self.expand, self.bind_loops, self.no_expand,
                       self.max_paths, self.objects, self.effects, self.volatile, self.props, self.private_only)
         sub._ntok = self._ntok
@@ -2340,8 +2342,12 @@ def class_constants(ctx, cls):
     for st in body2:
         if isinstance(st, ast.Assign) and len(st.targets) == 1 and isinstance(st.targets[0], ast.Name):
             counts[st.targets[0].id] = counts.get(st.targets[0].id, 0) + 1
+            numv = st.value.operand if isinstance(st.value, ast.UnaryOp) and isinstance(st.value.op, (ast.USub, ast.UAdd)) \
+                else st.value
             if (isinstance(st.value, ast.Tuple) and literal(st.value)) or \
                (isinstance(st.value, ast.Constant) and isinstance(st.value.value, str)) or \
+               (isinstance(numv, ast.Constant) and isinstance(numv.value, (int, complex)) and
+                not isinstance(numv.value, bool)) or \
                (not isinstance(st.value, ast.Constant) and constexpr(st.value) and
                 (st.targets[0].id.startswith('_') or any(isinstance(x_, ast.Constant) and isinstance(x_.value, str)
                                                           for x_ in ast.walk(st.value)))):
